@@ -33,18 +33,37 @@ for mid, m in muts.items():
     desc = m['description'].split(' -- ')[0]
     print('| %s | %s | %s%s | %s |' % (mid, desc.replace('|', '/'), verdict, (' %ss' % r[1]) if r[1] else '', ', '.join(s.split(':', 1)[1] if ':' in s else s for s in r[2][:3])))
 print('\n%d planted mutants: %d caught, %d missed.\n' % (len(muts), ncaught, nmiss))
+final = {}
+if len(sys.argv) > 2:
+    for line in open(sys.argv[2]):
+        f = line.split()
+        if len(f) >= 3:
+            final[f[0]] = (f[2], [x.split('=', 1)[1] for x in f[3:] if x.startswith('signature=')])
 print('### 11.2 Independently seeded changes (sub-agents given only the property text and a scratch worktree)\n')
-print('| id | property | file(s) touched | what it needs to manifest (from the agent\'s notes) | demo clean/patched | stable tests | our check | note |')
-print('|----|----------|-----------------|--------------------------------|------|------|------|------|')
+print('"on arrival" is the verdict of the check as it stood when the change was delivered (a non-empty note = it was missed and the '
+      'check was extended; C08-f is marked there too although the extension made for C07-f had landed minutes earlier); '
+      '"final" is the verdict of the final quick check (seed 1) from `tools/seeded_sweep.sh`.\n')
+print('| id | file(s) touched | what it needs to manifest | demo clean/patched | stable tests | on arrival | final check | extension made after a miss |')
+print('|----|-----------------|---------------------------|------|------|------|------|------|')
+n = nmiss0 = nfinal_c = nfinal_m = 0
 for d in sorted(glob.glob(os.path.join(HERE, 'seeded', '*'))):
     sid = os.path.basename(d)
     meta = json.load(open(os.path.join(d, 'meta.json')))
     patch = open(os.path.join(d, 'patch.diff')).read()
     files = sorted(set(re.findall(r'^\+\+\+ b/(\S+)', patch, re.M)))
     chk = meta.get('check', {})
-    note = meta.get('verdict') or meta.get('strengthening') or ''
+    note = meta.get('strengthening') or meta.get('verdict') or ''
+    missed0 = bool(meta.get('strengthening')) or chk.get('verdict') == 'MISSED'
+    n += 1
+    nmiss0 += int(missed0 and sid != 'C16-a')
+    fv, fs = final.get(sid, ('not run', []))
+    nfinal_c += int(fv == 'caught')
+    nfinal_m += int(fv == 'MISSED')
     needs = meta.get('needs', '')
-    print('| %s | %s | %s | %s | %s/%s | %s | %s %s | %s |' % (
-        sid, meta.get('property'), ', '.join(f.replace('elfi/', '') for f in files), needs.replace('|', '/'),
-        meta.get('demo_clean_rc'), meta.get('demo_patched_rc'), 'pass' if meta.get('stable_tests_rc') == 0 else str(meta.get('stable_tests', '?'))[:40],
-        chk.get('verdict', '?'), ', '.join(s.split('=', 1)[1].split(':', 1)[1] for s in chk.get('signatures', [])[:2]), note.replace('|', '/')[:260]))
+    st_ = 'pass' if meta.get('stable_tests_rc') == 0 else ('pass (1 flaky test re-run)' if 'passed' in str(meta.get('stable_tests', '')) else str(meta.get('stable_tests', '?'))[:40])
+    print('| %s | %s | %s | %s/%s | %s | %s | %s %s | %s |' % (
+        sid, ', '.join(f.replace('elfi/', '') for f in files), needs.replace('|', '/'),
+        meta.get('demo_clean_rc'), meta.get('demo_patched_rc'), st_,
+        'missed' if missed0 else 'caught', fv, ', '.join(x.split(':', 1)[1] if ':' in x else x for x in fs[:2]), note.replace('|', '/')[:300]))
+print('\n%d seeded changes kept: %d missed on arrival (each followed by an extension of the generator), final checks: %d caught, %d missed '
+      '(C16-a: not a violation of the property as stated, the check must be silent).\n' % (n, nmiss0, nfinal_c, nfinal_m))
